@@ -411,6 +411,8 @@ def decide(make, h, name, k, build, stats, init="free", max_prefix=6, twin=None,
             rr, rmodel = solve(rcons + list(ra) + [rbad], stats, f"{name}/root{p}", timeout_ms=45_000, soft=True)
             if rr == "unknown":
                 undecided += 1
+                if undecided >= 2 and p > max_prefix:
+                    break               # longer unrollings will not be easier
                 continue
             if rr != "sat":
                 continue
